@@ -99,7 +99,7 @@ class E2E:
                                                     "oracle_minus_spec": sorted((python_oracle(tree) - spec_nodes).elements())[:6]})
         else:
             self.ctx.dist("c01.spec == independent Python oracle")
-        self.ctx.dist("hypotheses of C01_node_labels_pipeline (wfStages6 + treeOk stage6) " + ("hold" if r["wf_pipeline"] else "FAIL") + " on the real tree")
+        self.ctx.dist("hypotheses of C01_node_labels_pipeline (wfStages6 + wfTweak + treeOk of tweak) " + ("hold" if r["wf_pipeline"] else "FAIL") + " on the real tree")
         return collections.Counter((t, ln) for t, ln in r["nodes"]), tree
 
     def got_from_labels(self, labels, exp):
